@@ -134,8 +134,8 @@ let labels_s ls =
 let kind_of_instr = function
   | ISelect _ -> "select" | ISelWait _ -> "selwait" | IAcqO _ -> "acqO" | ITryAcqO _ -> "tryO" | IRelO _ | KRelO _ -> "relO"
   | IAcqR _ -> "acqR" | IRelR _ | KRelR _ -> "relR" | IWaitO _ -> "wait" | IWake _ -> "wake"
-  | INotifyO _ -> "notify" | IRecv _ -> "recv" | IFlushSend _ -> "send" | IExpt _ -> "soerr"
-  | ISockClose _ -> "sclose" | IAccept -> "accept" | ISetOpts _ -> "setopt" | IInitGso _ -> "gso"
+  | INotifyO _ -> "notify" | IRecvCall _ -> "recv" | IFlushSend _ -> "send" | IExptCall _ -> "soerr"
+  | ISockCloseCall _ -> "sclose" | IAccept -> "accept" | ISetOpts _ -> "setopt" | IInitGso _ -> "gso"
   | IInitSbl _ -> "sbl" | IPull _ -> "pull" | IAddTask _ -> "addtask"
   | IPoll -> "poll" | IDisp _ -> "disp" | IDisp2 _ -> "disp2" | IHClose _ -> "hclose"
   | ICloseBufs _ -> "closebufs" | IApp _ -> "app" | IErrTask _ -> "errtask"
@@ -285,15 +285,15 @@ let menu g faults (s : state) t : answer list =
        (if not s.chA.accepted then [AAcc (AccConn A)] else if not s.chB.accepted then [AAcc (AccConn B)] else [])
        @ (if faults then [AAcc (AccErr EINVAL); AAcc (AccErr EWOULDBLOCK)] else [AAcc (AccErr EWOULDBLOCK)])
      | ISetOpts _ | IInitGso _ | IInitSbl _ -> ACall None :: (if faults then [ACall (Some EINVAL)] else [])
-     | IRecv c ->
+     | IRecvCall c ->
        let x = getc s c in
        (if ni x.wire = 0 && ni x.nreq = 0 then
           [ARecv (RData [it_get]); ARecv (RData [it_get; it_exp]); ARecv (RData [it_exp]); ARecv (RData [it_get; it_get])]
         else [ARecv (RData [it_part])])
        @ [ARecv REof]
        @ (if faults then [ARecv (RErr ECONNRESET); ARecv (RErr EINVAL)] else [])
-     | IExpt _ -> [AExpt XZero] @ (if faults then [AExpt XNonzero; AExpt (XRaise EBADF)] else [])
-     | IFlushSend (c, _, mm) ->
+     | IExptCall _ -> [AExpt XZero] @ (if faults then [AExpt XNonzero; AExpt (XRaise EBADF)] else [])
+     | IFlushSend (c, _, mm, _) ->
        let m = ni mm in
        [ASend (SOk (nn m)); ASend (SErr EWOULDBLOCK)]
        @ (if m > 1 then [ASend (SOk (nn 1))] else [])
